@@ -740,6 +740,22 @@ PUBLIC_SPECS = [
      "attrs": {"dilations": [1, 1], "group": 1, "kernel_shape": [2, 2], "pads": [0, 0, 0, 0], "strides": [1, 1]}},
     {"op": "BatchNormalization", "inputs": {"X": _f32(1, 2, 2), "scale": _f32(2), "B": _f32(2), "input_mean": _f32(2), "input_var": _f32(2)},
      "attrs": {"epsilon": 0.625, "momentum": 0.375}},
+    {"op": "LSTM", "inputs": {"X": _f32(3, 1, 2), "W": _f32(1, 8, 2), "R": _f32(1, 8, 2), "B": _f32(1, 16),
+                              "sequence_lens": ("int32", (1,)), "initial_h": _f32(1, 1, 2), "initial_c": _f32(1, 1, 2),
+                              "P": _f32(1, 6)},
+     "attrs": {"hidden_size": 2, "direction": "forward", "clip": 0.625}, "always": ["hidden_size"]},
+    {"op": "GRU", "inputs": {"X": _f32(3, 1, 2), "W": _f32(1, 6, 2), "R": _f32(1, 6, 2), "B": _f32(1, 12),
+                             "sequence_lens": ("int32", (1,)), "initial_h": _f32(1, 1, 2)},
+     "attrs": {"hidden_size": 2, "linear_before_reset": 1}, "always": ["hidden_size"]},
+    {"op": "Squeeze", "inputs": {"data": _f32(1, 2), "axes": _i64(1)}, "attrs": {}},
+    {"op": "Trilu", "inputs": {"input": _f32(2, 2), "k": _i64()}, "attrs": {"upper": 0}},
+    {"op": "NonMaxSuppression", "inputs": {"boxes": _f32(1, 3, 4), "scores": _f32(1, 1, 3), "max_output_boxes_per_class": _i64(),
+                                           "iou_threshold": _f32(), "score_threshold": _f32()},
+     "attrs": {"center_point_box": 1}},
+    {"op": "MaxPool", "inputs": {"X": _f32(1, 1, 4, 4)},
+     "attrs": {"kernel_shape": [2, 2], "strides": [2, 2], "ceil_mode": 1, "storage_order": 1}},
+    {"op": "Einsum", "inputs": {"Inputs": [_f32(2, 3), _f32(3, 2)]}, "attrs": {"equation": "ij,jk->ik"}},
+    {"op": "QuantizeLinear", "inputs": {"x": _f32(2), "y_scale": _f32(), "y_zero_point": ("uint8", ())}, "attrs": {"axis": 0}},
     {"op": "Scaler", "inputs": {"X": _f32(2)}, "attrs": {"offset": [0.5], "scale": [1.5]}, "always": ["offset", "scale"]},
     {"op": "Binarizer", "inputs": {"X": _f32(2)}, "attrs": {"threshold": 0.625}},
     {"op": "Normalizer", "inputs": {"X": _f32(1, 2)}, "attrs": {"norm": "L1"}},
@@ -1146,7 +1162,7 @@ def run(ck: core.Check):
         "per pair; real constructor calls per distinct (constructor, schema): all subsets of optional inputs "
         "(<=5; else all singletons/co-singletons + random) x variadic arities x {no optional attribute, all} "
         "+ each optional attribute alone + all attribute subsets when <=3 (thorough: <=7) optional attributes "
-        "+ edge-value variant + seeded random subsets; plus 18 operators with valid typed arguments through the "
+        "+ edge-value variant + seeded random subsets; plus 26 operators with valid typed arguments through the "
         "public API only (constructor -> spox.build -> ModelProto) in every module; distinct by (module, op, "
         "inputs present, attributes given, call style, value variant)"
     )
